@@ -27,9 +27,11 @@ def tls_conn(rng, table, hist, idx, server_port=443, v6=None, **force):
             break
     ver = force.get("ver", rng.choice(tls_ref.valid_versions(code, d)))
     s = tlsgen.Scenario()
-    s.conn = tlsgen.make_conn(rng, table, code, ver, hist, **{k: v for k, v in force.items() if k not in ("code", "ver")})
+    s.conn = tlsgen.make_conn(rng, table, code, ver, hist, **{k: v for k, v in force.items() if k not in ("code", "ver", "ends")})
     v6 = bool(rng.randrange(2)) if v6 is None else v6
     s.client, s.server = tlsgen.endpoints(rng, v6, server_port=server_port, idx=idx)
+    if "ends" in force:
+        s.client, s.server = force["ends"]
     s.wire = [(srv, rec) for srv, rec, _, _ in s.conn.wire]
     s.schedule = force.get("schedule", rng.choice(["whole", "mss", "random", "small"]))
     s.packets = capgen.tcp_packets(s.wire, rng, s.client, s.server, schedule=s.schedule)
